@@ -14,6 +14,7 @@ doubles to rationals."""
 from __future__ import annotations
 
 import warnings
+from types import SimpleNamespace
 
 import numpy as np
 
@@ -30,19 +31,30 @@ def run_case(recipe):
     """build the grid, compute its geometry with porepy, return the case for TLC"""
     g, info = G.build(recipe)
     raised = False
+    exported = G.export(g)
+    # physical scale 2^e (exact in doubles): the geometry of the scaled grid is the scaled geometry, so the computed
+    # numbers are divided by the exact powers of two again and judged against the integer pre-image - anything in
+    # compute_geometry that depends on the absolute size of the cells (absolute tolerances) shows up
+    e = int(recipe.get("pscale", 0))
+    if e:
+        g.nodes = g.nodes * (2.0 ** e)
     with warnings.catch_warnings():
         warnings.simplefilter("ignore")
         try:
             g.compute_geometry()
-            out = G.geometry(g)
-            floats = G.geometry_floats(g)
+            d = g.dim
+            h = SimpleNamespace(cell_volumes=g.cell_volumes / 2.0 ** (e * d), cell_centers=g.cell_centers / 2.0 ** e,
+                                face_centers=g.face_centers / 2.0 ** e, face_normals=g.face_normals / 2.0 ** (e * (d - 1)),
+                                face_areas=g.face_areas / 2.0 ** (e * (d - 1))) if e else g
+            out = G.geometry(h)
+            floats = G.geometry_floats(h)
         except (ValueError, AssertionError, RuntimeError, FloatingPointError, ZeroDivisionError) as e:
             raised = True
             z = [0, 1]
             out = dict(vol=[z] * g.num_cells, cc=[[z] * 3] * g.num_cells, fc=[[z] * 3] * g.num_faces,
                        fn=[[z] * 3] * g.num_faces, fa2=[z] * g.num_faces)
             floats = dict(error=repr(e))
-    case = dict(g=G.export(g), meas=info["meas"], strict=info["strict"], convex=info["convex"], raised=raised,
+    case = dict(g=exported, meas=info["meas"], strict=info["strict"], convex=info["convex"], raised=raised,
                 out=out)
     return case, floats
 
@@ -148,7 +160,7 @@ def fixed_recipes(rng, quick):
 def class_key(recipe, case):
     ops = tuple(o["op"] + ("/swap" if o.get("swap") else "") for o in recipe.get("ops", []))
     b = recipe["base"]
-    return (b["kind"], b.get("name", ""), case["g"]["dim"], len(case["g"]["cf"]), ops)
+    return (b["kind"], b.get("name", ""), case["g"]["dim"], len(case["g"]["cf"]), ops, recipe.get("pscale", 0))
 
 
 def judge(ctx, recipes, tag):
@@ -182,7 +194,8 @@ def run(ctx):
     ctx.rule = ("TLC enumerates every tensor-product grid with integer coordinates in the box (GridFam); each is built "
                 "with the porepy constructors as tensor/Cartesian and structured / general simplex grid and varied "
                 "(orientation conventions incl. inconsistent ones, integer affine maps, lattice perturbations, "
-                "translations, 1D lines in 3D); plus hand-built polygonal/polyhedral grids.  One evaluation = one grid "
+                "translations, 1D lines in 3D); plus hand-built polygonal/polyhedral grids; a third / quarter of all of them "
+                "again at the physical scales 2^-14 and 2^10 (exact rescaling).  One evaluation = one grid "
                 "whose compute_geometry output TLC judged; distinct classes = (family, dim, #cells, operations); "
                 "non-trivial = more than one cell or a variant")
     ctx.assumptions = ["integer node coordinates |x| <= 12; all faces planar (3D: star-shaped w.r.t. their node mean); "
@@ -220,6 +233,10 @@ def run(ctx):
                 vs = variants(rng, rb, 1)
                 recipes += vs[:1] + (vs[-1:] if full else [])
     recipes += fixed_recipes(rng, q)
+    # the same grids at small (2^-14 ~ 6e-5) and large (2^10) physical scale
+    scaled = [dict(r, pscale=(-14 if (i // 3) % 2 else 10)) for i, r in enumerate(recipes) if i % (4 if q else 3) == 0]
+    ctx.extra["scaled_grids"] = len(scaled)
+    recipes += scaled
     ctx.extra["grids"] = len(recipes)
     # judge in batches (one TLC run each)
     B = 400 if q else 1000
